@@ -66,6 +66,54 @@ def unify_partners(node):
     return out
 
 
+def _ctx_type_root(ld, e, depth=0):
+    """the locals that can hold the TYPE a context expression expects: `&new_ctx` with `let new_ctx = ctx.with_type(ty.clone())` ->
+    {local of `ty`}, followed through copies, tuples and the arms of a `match` / `if` that produces it; None when the type is not
+    a local at all (built in place, a call)"""
+    e = hir.peel_refs(hir.strip(e or {}))
+    if depth > 6:
+        return None
+    if e.get("k") == "mcall" and e["m"] in ("clone", "to_owned", "borrow", "as_ref") and not e["args"]:
+        return _ctx_type_root(ld, e["recv"], depth + 1)
+    if e.get("k") == "mcall" and e["m"] == "with_type" and len(e["args"]) == 1:
+        return _ty_roots(ld, e["args"][0], (), depth + 1) or None
+    if e.get("k") == "path" and hir.res_local(e) is not None:
+        d = ld.get(hir.res_local(e))
+        if d and d[1] is not None and not (d[2] and d[2][0] in ("arm", "param")):
+            return _ctx_type_root(ld, d[1], depth + 1)
+    return None
+
+
+def _ty_roots(ld, e, path, depth=0):
+    """root locals of component `path` (tuple positions) of the value of e"""
+    e = hir.peel_refs(hir.strip(e or {}))
+    if depth > 12 or not isinstance(e, dict):
+        return frozenset()
+    k = e.get("k")
+    if k == "mcall" and e["m"] in ("clone", "to_owned", "borrow", "as_ref") and not e["args"]:
+        return _ty_roots(ld, e["recv"], path, depth + 1)
+    if k == "block":
+        return _ty_roots(ld, e.get("expr"), path, depth + 1) if e.get("expr") is not None else frozenset()
+    if k == "match":
+        out = frozenset()
+        for arm in e["arms"]:
+            out |= _ty_roots(ld, arm["body"], path, depth + 1)
+        return out
+    if k == "if":
+        return _ty_roots(ld, e.get("then"), path, depth + 1) | _ty_roots(ld, e.get("else"), path, depth + 1)
+    if k == "tup" and path and isinstance(path[0], int) and path[0] < len(e.get("elems") or []):
+        return _ty_roots(ld, e["elems"][path[0]], path[1:], depth + 1)
+    if k == "path" and hir.res_local(e) is not None:
+        l = hir.res_local(e)
+        d = ld.get(l)
+        if d and d[1] is not None and not (d[2] and d[2][0] in ("arm", "param")) and all(isinstance(x, int) for x in d[2]):
+            inner = _ty_roots(ld, d[1], tuple(d[2]) + tuple(path), depth + 1)
+            if inner:
+                return inner
+        return frozenset([l]) if not path else frozenset([(l,) + tuple(path)])
+    return frozenset()
+
+
 def rule_e1(F):
     r = RuleResult("C07.E1", "every expression kind / operator group constrains the expected type; fixed-type constructs unify with the documented type", floor=20 + 7 + 6)
     b = find_tc(F, "expr")
@@ -126,6 +174,7 @@ def rule_e1(F):
         partners = [p.lower() for p in unify_partners(arm["body"])]
         # operands: self.expr(scope, &CTX, left/right): same context local for both
         ctxs = {}
+        ctx_types = {}
         bld = hir.LocalDefs(bb.hir)
         epos = [i for i, p_ in enumerate(bb.hir["params"]) if "Meta<ast::Expr>" in (p_.get("ty") or "")]
         role = {epos[0]: "left", epos[1]: "right"} if len(epos) >= 2 else {}
@@ -135,6 +184,7 @@ def rule_e1(F):
                 # the context an operand is checked against: identity of the local (or 'fresh:<line>' for a context built in place)
                 cl = hir.res_local(hir.peel_refs(hir.strip(c["args"][1])))
                 ctxs[tuple(who)] = ("local%s" % cl,) if cl is not None else tuple(sorted(str(hir.result_desc(c["args"][1]))[:60].split()))
+                ctx_types[tuple(who)] = _ctx_type_root(bld, c["args"][1])
         r.inst(key, {"ops": alts, "unifies_expected_with": partners, "operand_contexts": {str(k): v for k, v in ctxs.items()}})
         if not reads_expected(arm["body"]):
             r.bad(bb.path, key, relfile(bb.file), arm["line"], "operator group %s never constrains the expected type" % alts)
@@ -142,7 +192,8 @@ def rule_e1(F):
             r.bad(bb.path, key + " result", relfile(bb.file), arm["line"], "%s must produce bool; expected type is unified with %s" % (alts, partners))
         if ("left",) not in ctxs or ("right",) not in ctxs:
             r.bad(bb.path, key + " operands", relfile(bb.file), arm["line"], "operator group %s does not type-check both operands" % alts)
-        elif ctxs[("left",)] != ctxs[("right",)]:
+        elif ctxs[("left",)] != ctxs[("right",)] and not (ctx_types.get(("left",)) and ctx_types.get(("right",)) and (ctx_types[("left",)] & ctx_types[("right",)])):
+            # (two contexts built separately from one and the same type value are the same expectation)
             r.bad(bb.path, key + " operands", relfile(bb.file), arm["line"], "left and right operand of %s are checked against different contexts %s / %s" % (alts, ctxs[("left",)], ctxs[("right",)]))
         # arithmetic / ordering require a numeric left operand
         if set(alts) & {"BinOp::Lt", "BinOp::Add", "BinOp::Mod"}:
